@@ -490,4 +490,136 @@ def runT {V : Type} (ofStr : Str → V) (ofInt : Int → V) (ih : Str) (st : TSt
     let rs := runT ofStr ofInt ih r.2 ops
     ((match r.1 with | some o => o :: rs.1 | none => rs.1), rs.2)
 
+/-! ## `get_info()` while the magnet object is being changed
+    `get_info()` calls the user's error callback between two sources (for a failed download and for
+    unreadable data), and a slow source gives another thread time to act: both can assign the hash
+    (`xt`, `infohash`) or the source fields (`xs`, `as_`, `ws`, `tr`) *while the call is running*.
+    What the code does: the list `torrent_urls` — including the tracker requests, which carry the hash —
+    is built once at the start of the call; `_set_info_from_torrent` converts the hash the object holds
+    **at the moment the torrent has arrived** (`self._infohash_as_base16()` is evaluated then, nothing is
+    remembered from the start of the call); `success()` looks at the object after every source.
+    The model is a state machine over the sources; the world (`URL → what is served`), what the other
+    thread does while source `i` is answering (`Visit.during`) and what the callback does when it is
+    called for source `i` (`Visit.inCb`) are inputs. -/
+
+/-- the magnet as far as `get_info()` is concerned: hash + adopted metadata, and the source fields -/
+structure GState where
+  m : MState
+  src : Sources
+
+/-- one operation on the magnet from inside the callback or from another thread -/
+inductive Act where
+  | hash (op : HashOp)          -- `magnet.xt = v` / `magnet.infohash = v` (any string)
+  | setXs (v : Option Str)      -- accepted assignments to the source fields (`None` / a valid URL / a list of
+  | setAs (v : Option Str)      --   valid URLs as they are stored: `C14_urls`; trackers as (scheme, netloc))
+  | setWs (vs : List Str)
+  | setTr (vs : List (Str × Str))
+  | urlRejected                 -- an invalid URL assigned to one of them: URLError, nothing changes (`C14_urls`)
+
+/-- how operations and arriving torrents are judged.  The control flow of `get_info()` below is written
+    once; the code-shaped model (`codeSem`: the setters with their regular expressions, the base-32
+    conversion at the moment of arrival) and the specification (`specSem`, Spec) instantiate it. -/
+structure Sem where
+  assign : MState → HashOp → Option MErr × MState
+  /-- `_set_info_from_torrent` once `read_stream` succeeded: validate, state, infohash and non-emptiness
+      of the info section of the torrent that has arrived -/
+  arrived : Bool → MState → Str → Bool → Except MErr MState
+
+/-- `_set_info_from_torrent` on a readable torrent: `self._infohash_as_base16()` is evaluated **now** -/
+def arrivedCode (validate : Bool) (m : MState) (h : Str) (ne : Bool) : Except MErr MState :=
+  if validate then
+    match m.hash with
+    | none => .error (.internal "AttributeError")
+    | some ih =>
+      match setInfoFrom true ih m.info (.torrent h ne) with
+      | .error e => .error e
+      | .ok info' => .ok { m with info := info' }
+  else .ok { m with info := if ne then some h else m.info }
+
+def codeSem : Sem := { assign := stepM, arrived := arrivedCode }
+
+def actStep (sem : Sem) (st : GState) : Act → Option MErr × GState
+  | .hash op => let r := sem.assign st.m op; (r.1, { st with m := r.2 })
+  | .setXs v => (none, { st with src := { st.src with xs := v } })
+  | .setAs v => (none, { st with src := { st.src with as_ := v } })
+  | .setWs vs => (none, { st with src := { st.src with ws := vs } })
+  | .setTr vs => (none, { st with src := { st.src with tr := vs } })
+  | .urlRejected => (some .url, st)
+
+/-- the body of the callback: the first operation that raises ends it (the exception leaves
+    `get_info()`) -/
+def runCb (sem : Sem) (st : GState) : List Act → Option MErr × GState
+  | [] => (none, st)
+  | a :: rest =>
+    match actStep sem st a with
+    | (some e, st') => (some e, st')
+    | (none, st') => runCb sem st' rest
+
+/-- another thread: every operation on its own (an exception is that thread's business) -/
+def runThread (sem : Sem) (st : GState) : List Act → List (Option MErr) × GState
+  | [] => ([], st)
+  | a :: rest =>
+    let r := actStep sem st a
+    let rs := runThread sem r.2 rest
+    (r.1 :: rs.1, rs.2)
+
+/-- what happens around the consultation of one source -/
+structure Visit where
+  during : List Act := []       -- by another thread, after the request was sent and before the answer is looked at
+  inCb : List Act := []         -- by the callback, if `get_info()` calls it for this source
+
+/-- one `get_info()` call as it is observed -/
+structure Run where
+  err : Option MErr             -- raised by `get_info()` (MetainfoError of the comparison, or whatever left the callback)
+  st : GState                   -- the object afterwards
+  requested : List Str          -- URLs asked, in order
+  cbs : List Str                -- URLs for which the callback was called
+  thr : List (List (Option MErr))   -- outcome of every operation of the other thread, per source
+
+/-- the answer of one source is dealt with: (error leaving `get_info()`, state, callback called?) -/
+def answer (sem : Sem) (validate hasCb : Bool) (st : GState) (inCb : List Act) : Served → Option MErr × GState × Bool
+  | .torrent h ne =>
+    match sem.arrived validate st.m h ne with
+    | .error e => (some e, st, false)
+    | .ok m' => (none, { st with m := m' }, false)
+  | _ =>                         -- ConnectionError from `download` / TorfError from `read_stream`: `if callback: callback(e)`
+    if hasCb then let r := runCb sem st inCb; (r.1, r.2, true) else (none, st, false)
+
+/-- `for url in torrent_urls:` — the URL list is fixed; the state is whatever the object is by then -/
+def loopCb (sem : Sem) (validate hasCb : Bool) (world : Str → Served) : GState → List Str → List Visit → Run
+  | st, [], _ => { err := none, st := st, requested := [], cbs := [], thr := [] }
+  | st, u :: us, vs =>
+    let v := vs.headD {}
+    let t := runThread sem st v.during
+    let r := answer sem validate hasCb t.2 v.inCb (world u)
+    let cb := if r.2.2 then [u] else []
+    if r.1.isSome || r.2.1.m.info.isSome then               -- exception, or `if success(): break`
+      { err := r.1, st := r.2.1, requested := [u], cbs := cb, thr := [t.1] }
+    else
+      let rest := loopCb sem validate hasCb world r.2.1 us vs.tail
+      { rest with requested := u :: rest.requested, cbs := cb ++ rest.cbs, thr := t.1 :: rest.thr }
+
+/-- `Magnet.get_info(validate, callback=…)` with the world and the interleaved operations given -/
+def getInfoCb (sem : Sem) (validate hasCb : Bool) (world : Str → Served) (st : GState) (vs : List Visit) : Run :=
+  match st.m.hash with
+  | none => { err := some (.internal "AttributeError"), st := st, requested := [], cbs := [], thr := [] }
+  | some ih =>
+    match torrentUrls ih st.src with                        -- built once, from the hash and the fields held at the start
+    | .error e => { err := some e, st := st, requested := [], cbs := [], thr := [] }
+    | .ok urls => loopCb sem validate hasCb world st urls vs
+
+/-- several calls on one object (the world may differ from call to call) -/
+structure Call where
+  validate : Bool
+  hasCb : Bool
+  world : Str → Served
+  visits : List Visit
+
+def runCalls (sem : Sem) (st : GState) : List Call → List Run × GState
+  | [] => ([], st)
+  | c :: cs =>
+    let r := getInfoCb sem c.validate c.hasCb c.world st c.visits
+    let rs := runCalls sem r.st cs
+    (r :: rs.1, rs.2)
+
 end Torf.Magnet
